@@ -181,7 +181,7 @@ def enumerate_behaviours(consts):
     open(cfg, "w").write("SPECIFICATION Spec\nCONSTANTS\n" + "".join(f"  {k} = {v}\n" for k, v in consts.items())
                          + "INVARIANT InvUidFresh\nINVARIANT EmitHist\nPROPERTY PropFrame\nPROPERTY PropCopyEqual\n"
                            "CHECK_DEADLOCK FALSE\n")
-    p = subprocess.run(core._tlc_cmd("MC_Nets", cfg, os.path.join(d, "m"), 8, "8g"), capture_output=True, text=True,
+    p = subprocess.run(core._tlc_cmd("MC_Nets", cfg, os.path.join(d, "m"), 8, "3g"), capture_output=True, text=True,
                        cwd=common.SPEC, timeout=3600)
     out = p.stdout + p.stderr
     behs, rest = [], []
